@@ -120,6 +120,10 @@ def run(job):
         escaped = Code.StringConst("nm", None, b).escaped_value
         Code._write_cstring_const(w, escaped, "nm", len(escaped))
         return w.getvalue()
+    if form == "arrforce":     # the character-array branch of _write_cstring_const, entered by passing the
+        w = writer()           # threshold length for a short string (the branch itself does not look at it)
+        Code._write_cstring_const(w, SE.escape_byte_string(b), "nm", 65536)
+        return w.getvalue()
     if form == "char":
         return "'%s'" % SE.escape_char(b)
     raise ValueError(form)
@@ -174,9 +178,11 @@ _HEAD = ("#include <stdio.h>\n"
          "int main(void) {\n")
 
 
-def _c_source(items):
+def _c_source(items, line_marks=False):
     parts = [_HEAD]
     for i, (key, kind, text) in enumerate(items):
+        if line_marks:
+            parts.append("#line %d\n" % ((i + 1) * 1000))
         if kind == "str":
             parts.append("{ static const char s[] =\n%s\n; d(%d, s, sizeof(s) - 1); }\n" % (text, i))
         elif kind == "arr":
@@ -224,27 +230,71 @@ def _read_batch(items, wd, tag, out, counter):
     _read_batch(items[h:], wd, tag, out, counter)
 
 
+def _syntax_ok(item, wd, tag):
+    """Front-end only (no code generation, no link): does gcc accept this one text?"""
+    src = os.path.join(wd, tag + ".c")
+    with open(src, "wb") as f:
+        f.write(_c_source([item]).encode("latin1"))
+    p = subprocess.run(_GCC + ["-fsyntax-only", src], capture_output=True, text=True, errors="replace", timeout=120)
+    os.unlink(src)
+    if p.returncode == 0:
+        return None
+    msg = [l for l in p.stderr.splitlines() if "error" in l]
+    return (msg[0] if msg else p.stderr[:200])[-200:]
+
+
 def gcc_read(items, wd, batch=400, jobs=8):
-    """items: [(key, kind, text)] -> {key: [bytes] | ('rejected', msg) | None (not expressible)}.
-    Texts flagged solo (4th element true) are compiled on their own."""
+    """items: [(key, kind, text[, risky])] -> {key: [bytes] | ('rejected', msg) | None (not expressible)}.
+    Texts flagged risky (they may well be malformed) are first checked one by one with
+    -fsyntax-only; everything gcc accepts is then compiled in batches and run."""
     out = {}
-    batches, cur, cur_size = [], [], 0
+    os.makedirs(wd, exist_ok=True)
+    plain, risky = [], []
     for it in items:
         key, kind, text = it[0], it[1], it[2]
         if any(ord(c) > 255 for c in text):
             out[key] = None
-            continue
-        if len(it) > 3 and it[3]:
-            batches.append([(key, kind, text)])
-            continue
-        cur.append((key, kind, text))
-        cur_size += len(text)
+        elif len(it) > 3 and it[3]:
+            risky.append((key, kind, text))
+        else:
+            plain.append((key, kind, text))
+    # one front-end pass over all risky texts blames the lines with errors (#line marks map
+    # them to texts); only the blamed texts are then checked on their own
+    blamed = set()
+    for lo in range(0, len(risky), 1000):
+        part = risky[lo:lo + 1000]
+        src = os.path.join(wd, "blame%d.c" % lo)
+        with open(src, "wb") as f:
+            f.write(_c_source(part, line_marks=True).encode("latin1"))
+        p = subprocess.run(_GCC + ["-fsyntax-only", "-fmax-errors=0", src], capture_output=True, text=True,
+                           errors="replace", timeout=600)
+        if p.returncode != 0:
+            hit = False
+            for m in re.finditer(r"^[^:\n]+:(\d+):\d+: (?:fatal )?error", p.stderr, re.M):
+                ix = int(m.group(1)) // 1000 - 1
+                if 0 <= ix < len(part):
+                    blamed.add(lo + ix)
+                    hit = True
+            if not hit:
+                blamed.update(range(lo, lo + len(part)))
+    order = sorted(blamed)
+    with concurrent.futures.ThreadPoolExecutor(max_workers=jobs) as ex:
+        verdicts = list(ex.map(lambda ix: _syntax_ok(risky[ix], wd, "s%d" % ix), order))
+    rejected = {ix: msg for ix, msg in zip(order, verdicts) if msg is not None}
+    for ix, it in enumerate(risky):
+        if ix in rejected:
+            out[it[0]] = ("rejected", rejected[ix])
+        else:
+            plain.append(it)
+    batches, cur, cur_size = [], [], 0
+    for it in plain:
+        cur.append(it)
+        cur_size += len(it[2])
         if len(cur) >= batch or cur_size > 400000:
             batches.append(cur)
             cur, cur_size = [], 0
     if cur:
         batches.append(cur)
-    os.makedirs(wd, exist_ok=True)
 
     def work(ix):
         local = {}
